@@ -55,7 +55,7 @@ def cases_for(tier, rng, structure=False):
     k = srv.fnode(["d", "PS3ISO", "g.dkey"], 32, cid="lib_dkey", mtime=1500000004)
     k["raw"] = KEY.encode().hex()
     k3 = srv.fnode(["d", "disc1.iso"], 6 * 2048, cid="lib_3k3y", mtime=1500000005)
-    k3["enc"] = {"kind": "3k3y-enc", "key": KEY, "regions": [[0, 3], [4, 6]], "sectors": 6, "extraLen": 0, "plainName": "lib_3kplain"}
+    k3["enc"] = {"kind": "3k3y-enc", "key": KEY, "regions": [[0, 2], [4, 6]], "sectors": 6, "extraLen": 0, "plainName": "lib_3kplain"}
     add("special-members", [srv.dnode(["d"], 1500000000), srv.dnode(["d", "PS3ISO"], 1500000001), g, k, k3])
     # beyond 4 TiB (sector numbers above 2^31) and beyond what an ISO 9660 volume can address at all (2^32 sectors: refused)
     TIB = 1 << 40
@@ -196,7 +196,7 @@ def network_route(scratch, harness, specdir, rep, tier, rng):
         k = srv.fnode(["d", "PS3ISO", "g.dkey"], 32, cid="c07_dkey%d" % i, mtime=t + 4)
         k["raw"] = KEY.encode().hex()
         k3 = srv.fnode(["d", "disc1.iso"], 6 * 2048, cid="c07_3k3y%d" % i, mtime=t + 5)
-        k3["enc"] = {"kind": rng.choice(["3k3y-enc", "3k3y-dec"]), "key": KEY, "regions": [[0, 3], [4, 6]], "sectors": 6, "extraLen": 0, "plainName": "c07_3kplain%d" % i}
+        k3["enc"] = {"kind": rng.choice(["3k3y-enc", "3k3y-dec"]), "key": KEY, "regions": [[0, 2], [4, 6]], "sectors": 6, "extraLen": 0, "plainName": "c07_3kplain%d" % i}
         nodes = [srv.dnode(["d"], t), srv.dnode(["d", "PS3ISO"], t + 1), g, k, k3] + \
                 [srv.fnode(["d", "f%d.bin" % j], rng.choice([0, 1, 2047, 2048, 2049, 70001]), cid="c07_n%d_%d" % (i, j), mtime=t + 10 + j) for j in range(rng.randrange(1, 5))]
         rd = [{"op": "READ_FILE", "limit": 65536, "off": o} for o in range(0, 5 * 65536, 65536)]
